@@ -1,4 +1,5 @@
 import Driver.StoreDrv
+import Driver.WorldDrv
 import Driver.MgrDrv
 import Driver.LeakDrv
 import Driver.AtrestDrv
@@ -8,6 +9,7 @@ import Driver.InviteDrv
 def main (args : List String) : IO UInt32 := do
   match args with
   | ["store"] => Driver.StoreDrv.main; return 0
+  | ["world"] => Driver.WorldDrv.main; return 0
   | ["mgr"] => Driver.MgrDrv.main; return 0
   | ["leak"] => Driver.LeakDrv.main; return 0
   | ["atrest"] => Driver.AtrestDrv.main; return 0
